@@ -40,6 +40,9 @@ ASSUMPTIONS = [
     'PixelToReferenceTransformer / map_pixel_into_coordinate_system are the affine map origin + column*spacing[1]*row_direction + '
     'row*spacing[0]*column_direction (C10 proves that; here it is exercised on every case)',
     'tile sizes and matrix sizes are >= 1 (0 divides by zero in the code; negative sizes are outside the property)',
+    'tile_pixel_matrix computes n / t in float64, the translated definition over exact rationals: they agree for sizes below 2^52 '
+    '(tile_pixel_matrix(2**53 + 1, 1, 2**52, 1) has 2 tiles, compute_tile_positions_per_frame 3); sizes generated here are <= 24, '
+    'so wrap-around of numpy integer spellings (np.uint8(200) + np.uint8(100)) is out of reach of this check as well',
 ]
 MODELLED_NOT_VERIFIED = ['numpy meshgrid / stack / reshape ordering', 'itertools.product ordering', 'np.pad',
                          'PlanePositionSequence attribute storage', 'PixelToReferenceTransformer (affine map, C10)']
@@ -76,6 +79,13 @@ def with_layout(a, layout):
 def grid(R, C, tr, tc):
     """the row-major grid, stated directly: (row position, column position), 1-based"""
     return [(1 + tr * i, 1 + tc * j) for i in range(-(-R // tr)) for j in range(-(-C // tc))]
+
+
+def enum_preview(spatial, R, C, tr, tc):
+    try:
+        return [list(map(int, x)) for x in list(spatial.tile_pixel_matrix(R, C, tr, tc))[:8]]
+    except Exception as e:  # noqa: BLE001
+        return repr(e)
 
 
 def paint_ok(R, C, tr, tc, g):
@@ -164,6 +174,7 @@ def _sizes(ctx, reqs, pending):
         # ---- tile_pixel_matrix
         st, val = _fetch(lambda: list(spatial.tile_pixel_matrix(I(R), I(C), I(tr), I(tc))))
         ctx.case(helper='tile_pixel_matrix', nontrivial_key=('tpm', R, C, tr, tc) if multi else None,
+                 sample={'helper': 'tile_pixel_matrix', 'sizes': [R, C, tr, tc], 'result': enum_preview(spatial, R, C, tr, tc)} if (multi and k % 9973 == 0) else None,
                  tiles=min(len(g), 50), divides=(R % tr == 0, C % tc == 0))
         if st == 'err':
             ctx.fail(case, {'helper': 'tile_pixel_matrix', 'error': val}, site='tile_pixel_matrix')
@@ -319,6 +330,61 @@ def _tile_offsets(ctx, reqs, pending):
             ctx.fail({'sizes': [R, C, tr, tc], 'tile_idx': idx, 'layout': layout}, 'get_tile_array modified the array handed in', site='get_tile_array')
 
 
+# ------------------------------------------------------------------------------------------ options and refusals of the helpers
+def _options_and_refusals(ctx):
+    """Branches outside the grid arithmetic (oracle only): get_tile_array(pad=False), the three length checks of
+    compute_tile_positions_per_frame, exactly one of slice_index / spacing_between_slices in compute_plane_position_tiled_full,
+    iter_tiled_full_frame_data on a non-TILED_FULL image / another SOP class / without TotalPixelMatrixFocalPlanes."""
+    from highdicom import spatial, utils
+    from gen.sources import slide_image
+    for idx in range(ctx.n(20, 200)):
+        r = ctx.rng('opt', idx)
+        R, C, tr, tc = r.randint(1, 7), r.randint(1, 7), r.randint(1, 6), r.randint(1, 6)
+        M = ctx.np_rng('optpix', idx).integers(1, 200, size=(R, C), dtype=np.int64)
+        ro, co = r.randint(1, R), r.randint(1, C)
+        st, t = _fetch(spatial.get_tile_array, M, ro, co, tr, tc, pad=False)
+        ctx.case(helper='get_tile_array(pad=False)')
+        want = M[ro - 1:ro - 1 + tr, co - 1:co - 1 + tc]
+        if st == 'err' or np.asarray(t).shape != want.shape or not np.array_equal(np.asarray(t), want):
+            ctx.fail({'sizes': [R, C, tr, tc], 'row_offset': ro, 'column_offset': co, 'pad': False},
+                     {'helper': 'get_tile_array', 'what': 'pad=False does not return the plain slice', 'got': t if st == 'err' else np.asarray(t).tolist()},
+                     site='get_tile_array')
+        org, ori, sp = geo_for(r)
+        for name, args in [('position-length', (org[:2], ori, sp)), ('orientation-length', (org, ori[:5], sp)), ('spacing-length', (org, ori, sp + (1.0,)))]:
+            st, val = _fetch(spatial.compute_tile_positions_per_frame, tr, tc, R, C, *args)
+            ctx.case(helper='compute_tile_positions_per_frame/refusal', variant=name)
+            if st == 'ok':
+                ctx.fail({'sizes': [R, C, tr, tc], 'variant': name}, {'helper': 'compute_tile_positions_per_frame', 'what': 'argument of the wrong length accepted'},
+                         site='compute_tile_positions_per_frame')
+        for kw in (dict(slice_index=2), dict(spacing_between_slices=1.5)):
+            st, val = _fetch(utils.compute_plane_position_tiled_full, 1, 1, org[0], org[1], tr, tc, ori, sp, **kw)
+            ctx.case(helper='compute_plane_position_tiled_full/refusal', variant=next(iter(kw)))
+            if st == 'ok':
+                ctx.fail({'sizes': [R, C, tr, tc], 'kwargs': list(kw)}, {'helper': 'compute_plane_position_tiled_full',
+                         'what': 'only one of slice_index / spacing_between_slices accepted'}, site='compute_plane_position_tiled_full')
+        ds, _ = slide_image(R, C, tr, tc, tiled_full=True, origin=org, pixel_spacing=sp, orientation=ori)
+        variant = r.choice(['sparse', 'other-sop-class', 'no-organisation', 'no-focal-planes-attribute'])
+        if variant == 'sparse':
+            ds.DimensionOrganizationType = 'TILED_SPARSE'
+        elif variant == 'other-sop-class':
+            ds.SOPClassUID = '1.2.840.10008.5.1.4.1.1.2'
+        elif variant == 'no-organisation':
+            del ds.DimensionOrganizationType
+        else:
+            del ds.TotalPixelMatrixFocalPlanes
+        st, val = _fetch(lambda: list(spatial.iter_tiled_full_frame_data(ds)))
+        ctx.case(helper='iter_tiled_full_frame_data/' + variant)
+        if variant == 'no-focal-planes-attribute':
+            g = grid(R, C, tr, tc)
+            if st == 'err' or [(x[0], x[1], x[3], x[2]) for x in val] != [(1, 1, a, b) for a, b in g]:
+                ctx.fail({'sizes': [R, C, tr, tc], 'variant': variant}, {'helper': 'iter_tiled_full_frame_data',
+                         'what': 'an absent TotalPixelMatrixFocalPlanes is not read as one focal plane', 'got': val if st == 'err' else len(val)},
+                         site='iter_tiled_full_frame_data')
+        elif st == 'ok':
+            ctx.fail({'sizes': [R, C, tr, tc], 'variant': variant}, {'helper': 'iter_tiled_full_frame_data', 'what': 'image that is not TILED_FULL accepted'},
+                     site='iter_tiled_full_frame_data')
+
+
 # ------------------------------------------------------------------------------------------ TILED_FULL datasets
 def _datasets(ctx, reqs, pending):
     import highdicom as hd
@@ -371,6 +437,7 @@ def _datasets(ctx, reqs, pending):
         if ds != before:
             ctx.fail({'dataset_idx': idx}, 'iter_tiled_full_frame_data modified the dataset', site='iter_tiled_full_frame_data')
         ctx.case(helper='iter_tiled_full_frame_data', kind=kind, channels=len(channels), planes=planes, exact_geometry=exact,
+                 sample={**case, 'first_items': [list(x) for x in (val[:3] if st == 'ok' else [])]} if idx % 17 == 0 else None,
                  spacing_between_slices=str(sbs), anisotropic=(sp[0] != sp[1]), square_tile=(tr == tc), origin_z=str(oz),
                  nontrivial_key=('iter', idx) if len(g) > 1 else None)
         if st == 'err':
@@ -554,6 +621,7 @@ def _settle(ctx, reqs, pending):
 def run(ctx):
     reqs, pending = [], []
     _tile_offsets(ctx, reqs, pending)
+    _options_and_refusals(ctx)
     _datasets(ctx, reqs, pending)
     _settle(ctx, reqs, pending)
     reqs, pending = [], []
